@@ -49,15 +49,11 @@ def impl_breaker(thr, slp, delay, mx, losses):
     m.back_off_connect_error._delay = delay
     m.back_off_connect_error.max_delay = mx
     out = ["%d/%d" % (1 if m._connection_lost_sleep_before_reconnect else 0, m._get_back_off_time())]
-    old = mc.datetime.datetime
-    mc.datetime.datetime = _FakeDT
-    try:
+    with lib.patched_clock(mc, _FakeDT.utcnow):
         for t in losses:
             _FakeDT.now_us = t
             m._update_connection_lost_circuit_breaker()
             out.append("%d/%d" % (1 if m._connection_lost_sleep_before_reconnect else 0, m._get_back_off_time()))
-    finally:
-        mc.datetime.datetime = old
     return " ".join(out)
 
 
